@@ -399,7 +399,7 @@ func TestCheck(t *testing.T) {
 	}()
 	thorough := vp.Thorough()
 	bound := 2
-	scs := []*sched.Scenario{burstOf("S6-reannounce-synced-head-then-new", -1, []int{0, 1, 2}), multiOf(3, 1, 1, true), burst("S1-burst", -1), multi(2, 0), multi(2, 1), mixed(), scoped()}
+	scs := []*sched.Scenario{burstOf("S6b-reannounce-synced-head-then-one-new", -1, []int{0, 1}), burstOf("S6-reannounce-synced-head-then-new", -1, []int{0, 1, 2}), multiOf(3, 1, 1, true), burst("S1-burst", -1), multi(2, 0), multi(2, 1), mixed(), scoped()}
 	if thorough {
 		scs = append(scs, burst("S2-burst-failing-request", 2), multi(2, 2), multi(3, 1), multi(3, 2))
 	}
